@@ -2,7 +2,7 @@
 observable yields, for every group, exactly what it yields on that group's items alone as a plain Observable."""
 import json
 from harness import muxlib, muxgen
-from harness.pyval import enc
+from harness.pyval import enc, dec
 
 PID = 'C01'
 RULE = ('random pipelines of depth 1-6 over the dual-mode operators (map, starmap, filter, flat_map, scan, count, '
@@ -118,20 +118,22 @@ def generate(rng, tier):
                     return enc(q.pop(0))
                 trace = [(['n', e[1], nxt(tuple(e[1]))] if e[0] == 'n' else e) for e in trace]
                 cases.append({'ast': ast, 'trace': trace, 'kind': 'keys', 'km': ['id']})
-    # (c) scale: long groups, hundreds of groups, parameters of 257 and more
-    for _ in range({'quick': 10, 'thorough': 200, 'search': 2}[tier]):
-        big = rng.choice([257, 300, 1000])
-        ast = [rng.choice([['count', 0], ['count', 1], ['sum', None, 1], ['mean', None, 0], ['max', None, 0], ['min', None, 1],
-                           ['to_list'], ['take', big], ['batch', big], ['batch', 256], ['duc', None], ['last'], ['first'],
-                           ['variance', None, 1], ['scan', ['add'], enc(0), 0, None], ['to_array', 'q'], ['identity'],
-                           ['filter', ['isodd']], ['map', ['mul', enc(3)]]])]
-        if rng.random() < 0.3:
-            ast = ast + [rng.choice([['count', 1], ['last'], ['to_list']])]
-        if muxgen.has_take(ast):
-            ast = strip_fallible(ast)
-        kind = rng.choice(['keys', 'keys', 'groupby'])
-        trace = muxgen.gen_trace_scale(rng, rng.choice(['long', 'long2', 'many', 'long_reuse']) if kind == 'keys' else 'many_groups')
-        cases.append({'ast': ast, 'trace': trace, 'kind': kind, 'km': rng.choice([['mod', 300], ['mod', 2], ['id']]), 'scale': True})
+    # (c) scale: long groups, hundreds of groups, parameters of 257 and more, int states beyond 2**31; every entry in
+    #     every run
+    scale_ops = [['count', 0], ['count', 1], ['sum', None, 1], ['mean', None, 0], ['max', None, 0], ['min', None, 1], ['to_list'],
+                 ['take', 257], ['take', 300], ['batch', 257], ['batch', 256], ['duc', None], ['last'], ['first'], ['variance', None, 1],
+                 ['scan', ['add'], enc(0), 0, None], ['scan', ['add'], enc(2 ** 31 - 600), 0, None], ['scan', ['max'], enc(0), 1, None],
+                 ['to_array', 'q'], ['filter', ['isodd']], ['map', ['mul', enc(3)]]]
+    for _ in range({'quick': 1, 'thorough': 10, 'search': 0}[tier]):
+        for op in scale_ops:
+            ast = [op] + ([rng.choice([['count', 1], ['last'], ['to_list']])] if rng.random() < 0.3 else [])
+            if muxgen.has_take(ast):
+                ast = strip_fallible(ast)
+            kind = rng.choice(['keys', 'keys', 'groupby'])
+            trace = muxgen.gen_trace_scale(rng, rng.choice(['long', 'long2', 'long_reuse']) if kind == 'keys' else 'many_groups')
+            if op[0] == 'scan' and op[1] == ['add'] and rng.random() < 0.7:
+                trace = [(['n', e[1], enc(2 ** 31 + dec(e[2]))] if e[0] == 'n' else e) for e in trace]
+            cases.append({'ast': ast, 'trace': trace, 'kind': kind, 'km': rng.choice([['mod', 300], ['mod', 2], ['id']]), 'scale': True})
     return cases
 
 
